@@ -106,6 +106,19 @@ def oracle_run(cfg):
     d = float((gx - back).abs().max())
     if d > tol * max(1.0, float(g.abs().max())):
         return dict(detail='back-propagated cotangent differs from the inverse transform of it: %.3g' % d)
+    # the transpose of the inverse is the forward transform, whichever coefficients are being differentiated
+    gv = torch.randn(shp, dtype=torch.float64, generator=torch.Generator().manual_seed(2 + cfg['seed'] % (2**31)))
+    with torch.no_grad():
+        rl, rh = fwd(gv)
+    ref = [rl] + list(rh)
+    subsets = [list(range(len(ref))), list(range(1, len(ref))), [0], [1], [len(ref) - 1]]
+    for sub in subsets:
+        cs = [gs[k].clone().requires_grad_(k in sub) for k in range(len(ref))]
+        out = inv((cs[0], cs[1:]))
+        got = torch.autograd.grad(out, [cs[k] for k in sub], gv, allow_unused=True)
+        for k, a in zip(sub, got):
+            if a is None or float((a - ref[k]).abs().max()) > tol * max(1.0, float(gv.abs().max())):
+                return dict(detail='cotangent back-propagated through the inverse to coefficient block %d (differentiable blocks %s) is %s, not the forward transform of it' % (k, sub, 'missing' if a is None else 'off by %.3g' % float((a - ref[k]).abs().max())))
     e1 = float((x.detach() ** 2).sum()); e2 = float((yl.detach() ** 2).sum() + sum((h.detach() ** 2).sum() for h in yh))
     if abs(e1 - e2) > tol * max(1.0, e1):
         return dict(detail='energy %.12g vs %.12g' % (e1, e2))
